@@ -76,8 +76,8 @@ def rule_owned_operands(ctx, chk, L, rid):
 
 
 # ----------------------------------------------------------------------------- K3 (= L1 without aliasing)
-def rule_balance_conc(ctx, chk, L, rid):
-    for name in L.mutators():
+def rule_balance_conc(ctx, chk, L0, rid):
+    for name, L, sfx in [(n, V, sfx) for n in L0.mutators() for V, sfx in L0.views(n)]:
         b, res, _ = L.paths(name)
         for r in res:
             if not usable(chk, rid, b.defp, b.span, r):
@@ -87,7 +87,7 @@ def rule_balance_conc(ctx, chk, L, rid):
                 d, q, cev, qev, other = L.deltas(r.trace, r.facts, lo, hi)
                 for role in ("visible", "hidden", "count"):
                     ok, why = prove_zero(d[role].add(q[role], -1), r.facts)
-                    chk.require(ok, rid, "%s:%s:%s" % (b.defp, arm, role), b.span,
+                    chk.require(ok, rid, "%s%s:%s:%s" % (b.defp, sfx, arm, role), b.span,
                                 "taking threads must account for exactly what they own: %s delta %r vs owned queue delta %r (%s)" % (role, d[role], q[role], why),
                                 describe_path(r))
 
@@ -390,11 +390,14 @@ def rule_no_remove_then_push_in_extras(ctx, chk, L, rid):
         # a remove in one loop and a push in a later loop of the same function are on different path segments of the
         # walker only when both loops are entered: also look at the function's effect set
         if not hit:
-            effs = {(c, m) for c, m, d, callee, sp in ctx.cg.effects_closure(b.defp) if c == "Q"}
-            direct = {(c, m) for c, m, bb, callee, sp in ctx.cg.direct.get(b.defp, []) if c == "Q"}
-            for d in ctx.db.closures_of(b.defp):
-                direct |= {(c, m) for c, m, bb, callee, sp in ctx.cg.direct.get(d.defp, []) if c == "Q"}
-            if ("Q", "remove") in direct and ("Q", "push") in effs:
+            # ... both on *this* level's queue (a remove here and a push onto another level's queue - `transfer(id,
+            # &target)`, a level built from the removed orders - leaves no stale ticket behind a live id)
+            has = {"Q.remove": False, "Q.push": False}
+            for r in res:
+                for e in r.trace:
+                    if e[0] == "eff" and e[1] in has and e[2] and L.self_field(e[2][0]) == L.queue_field:
+                        has[e[1]] = True
+            if has["Q.remove"] and has["Q.push"]:
                 hit = (None, None)
         if hit:
             e, r = hit
